@@ -147,4 +147,23 @@ PROPS = {
             {"name": "targets", "test": "TestTargets", "checks": {Q: 300, T: 6000}, "shards": {Q: 4, T: 16}, "timeout": {Q: 400, T: 2400}},
         ],
     },
+    "C08": {
+        "pkg": "c08", "bin": True,
+        "technique": "rapid-generated pipelines sharing one task; recording Runner (in-process) and echoing commands (binary) "
+                     "compared with the overlay model task+stage",
+        "level_text": "For 2..6 stages sharing one task (parallel / chained / mixed), an optional second pipeline and a direct run in the "
+                      "same process, what each execution sees must be exactly the task's own env/variables/dir overlaid by that "
+                      "stage's overrides - no key private to another stage, no other stage's value - and the task's own settings "
+                      "must be unchanged afterwards; repeated runs; in-process (recording Runner owns nothing but observes the "
+                      "task object) and through the binary (values echoed by the commands, pwd -P).",
+        "level_note": "Overlap of concurrent stages at the binary level is provoked by sleep durations, not enumerated.",
+        "rule": "api: rapid cases (task env/vars over 4+3 keys each present with p=1/3, stages with own subsets, arrangement drawn, "
+                "second pipeline, direct run, 1..2 repetitions); cli: the same plus stage/task dir. Non-trivial = >= 2 stages share the "
+                "task and some key (or dir) is set by one stage and not by another; distinct = canonical JSON.",
+        "assumptions": ["stage identity is carried by a stage-private variable stage_id"],
+        "parts": [
+            {"name": "api", "test": "TestAPI", "checks": {Q: 3000, T: 60000}, "shards": {Q: 6, T: 16}, "timeout": {Q: 400, T: 2400}},
+            {"name": "cli", "test": "TestCLI", "checks": {Q: 160, T: 4000}, "shards": {Q: 8, T: 16}, "timeout": {Q: 400, T: 2400}},
+        ],
+    },
 }
